@@ -209,6 +209,9 @@ pub struct Style {
     pub comment: bool,
     /// backslash-newline inside the probe command word
     pub continuation: bool,
+    /// the probes are invoked through aliases (`alias P_=p S_=s` on a line of its own first), so
+    /// that alias substitution meets every construct (`! S_ 1`, `if S_ 0; then`, `S_ 1 | P_ x` …)
+    pub alias: bool,
 }
 
 impl Style {
@@ -218,12 +221,15 @@ impl Style {
             for spaces in [false, true] {
                 for comment in [false, true] {
                     for continuation in [false, true] {
-                        v.push(Style {
-                            newline,
-                            spaces,
-                            comment,
-                            continuation,
-                        });
+                        for alias in [false, true] {
+                            v.push(Style {
+                                newline,
+                                spaces,
+                                comment,
+                                continuation,
+                                alias,
+                            });
+                        }
                     }
                 }
             }
@@ -238,18 +244,32 @@ impl Style {
                 spaces: false,
                 comment: true,
                 continuation: false,
+                alias: false,
             },
             Style {
                 newline: false,
                 spaces: true,
                 comment: false,
                 continuation: true,
+                alias: false,
             },
             Style {
                 newline: true,
                 spaces: true,
                 comment: true,
                 continuation: true,
+                alias: false,
+            },
+            Style {
+                alias: true,
+                ..Style::default()
+            },
+            Style {
+                newline: true,
+                spaces: true,
+                comment: false,
+                continuation: false,
+                alias: true,
             },
         ]
     }
@@ -356,7 +376,13 @@ impl Printer {
     fn cmd(&mut self, c: &Cmd) -> String {
         match c {
             Cmd::P { label, st } => {
-                let name = if self.style.continuation { "\\\np" } else { "p" };
+                let name = if self.style.alias {
+                    "P_"
+                } else if self.style.continuation {
+                    "\\\np"
+                } else {
+                    "p"
+                };
                 let mut s = if *st == 0 {
                     format!("{name} {}", label_name(*label))
                 } else {
@@ -365,7 +391,7 @@ impl Printer {
                 self.first_done = true;
                 s
             }
-            Cmd::S(st) => format!("s {st}"),
+            Cmd::S(st) => format!("{} {st}", if self.style.alias { "S_" } else { "s" }),
             Cmd::Seq(v) if v.len() == 1 => self.cmd(&v[0]),
             Cmd::Seq(_) | Cmd::Async(_) => {
                 let inner = self.closed(c);
@@ -515,6 +541,7 @@ pub fn print(c: &Cmd, style: Style) -> String {
     let mut p = Printer::new(style);
     let s = p.list(c);
     let s = s.trim_end().to_string();
+    let s = if style.alias { format!("alias P_=p S_=s\n{s}") } else { s };
     if style.comment {
         // a comment line before the program and a trailing comment after its last token
         format!("# leading comment; exit 9\n{s} # trailing comment; exit 9")
